@@ -52,15 +52,18 @@ def distinct(ctx, xs):
             ctx.assume(xs[i] != xs[j])
 
 
-def h_frequency(ctx, frequency, start, span_h, n_hours_sym=1, unit="dimensionless", day_sym=True):
+def h_frequency(ctx, frequency, start, span_h, n_hours_sym=1, unit="dimensionless", day_sym=True, empty=None):
+    """empty='hours' / 'days': an explicitly empty selection (no matching hour at all: the series is zero everywhere)"""
     st = STARTS[start]
     vol = ctx.var("volume", lo=0, hi=10 ** 6, nice=(1, 500))
-    hours = [ctx.var(f"hour{k}", lo=0, hi=23, integer=True) for k in range(n_hours_sym)]
+    hours = [ctx.var(f"hour{k}", lo=0, hi=23, integer=True) for k in range(n_hours_sym)] if empty != "hours" else []
     distinct(ctx, hours)
     days = None
     if frequency != "daily":
         lo, hi = {"weekly": (0, 6), "monthly": (1, 31), "yearly": (1, 366)}[frequency]
-        if day_sym:
+        if empty == "days":
+            days = []
+        elif day_sym:
             days = [ctx.var("day0", lo=lo, hi=hi, integer=True)]
         else:
             days = None
@@ -73,9 +76,9 @@ def h_frequency(ctx, frequency, start, span_h, n_hours_sym=1, unit="dimensionles
     cells = list(df["value"].values._data)
     for i, c in enumerate(cells):
         t = st + i * HOUR
-        hit = or_(*[sym_eq(h, t.hour) for h in hours])
+        hit = or_(*[sym_eq(h, t.hour) for h in hours]) if hours else False
         if frequency != "daily":
-            hit = and_(hit, or_(*[sym_eq(d, criterion(frequency, t)) for d in eff_days]))
+            hit = and_(hit, or_(*[sym_eq(d, criterion(frequency, t)) for d in eff_days])) if eff_days else False
         ctx.eq(c, ite(hit, vol, 0), f"{lab}: volume at exactly the matching hours, zero elsewhere")
     ctx.observe("cell0", cells[0])
 
@@ -153,6 +156,11 @@ def plan(tier, seed):
     for st, span in (("leap", 72), ("nonleap", 50), ("newyear", 48), ("dec30leap", 60)):
         p.append(("frequency", dict(frequency="yearly", start=st, span_h=span), dict(max_paths=2000)))
     p.append(("frequency", dict(frequency="weekly", start="sun", span_h=30, day_sym=False)))
+    # explicitly empty selections
+    p.append(("frequency", dict(frequency="daily", start="mon", span_h=30, empty="hours")))
+    p.append(("frequency", dict(frequency="weekly", start="sun", span_h=50, empty="days")))
+    p.append(("frequency", dict(frequency="monthly", start="monthend", span_h=50, empty="days")))
+    p.append(("frequency", dict(frequency="yearly", start="newyear", span_h=30, empty="hours")))
     p.append(("frequency", dict(frequency="monthly", start="monthend", span_h=30, day_sym=False)))
     for st, span in (("leap", 48), ("tue", 60)):
         p.append(("daily_volume", dict(start=st, span_h=span, n_hours_sym=2), dict(max_paths=1500)))
